@@ -123,6 +123,18 @@ def deser_struct(prog, sl, ty):
                         # container-level #[serde(default)]: the field of <Container as Default>::default()
                         k.default = 'container:%s.%s' % (strip(a0[1])[1], a0[2])
                         k.container_default = (strip(a0[1])[1], a0[2])
+                        # what that field is in the container's Default impl: the same callee a field-level
+                        # #[serde(default)] would name (derive(Default) calls Default::default() per field), so
+                        # both spellings of the attribute give the same table
+                        cf = prog.fns.get(strip(a0[1])[1])
+                        cv = strip(sl.local(cf, 0)) if cf is not None else ('unknown',)
+                        fv = strip(dict(cv[3]).get(a0[2], ('unknown',))) if cv[0] == 'agg' else ('unknown',)
+                        if fv[0] == 'call' and fv[1] in ('std::vec::Vec::<T>::new', 'std::string::String::new'):
+                            k.default = 'std::default::Default::default'
+                        elif fv[0] == 'call':
+                            k.default = fv[1]
+                        elif fv[0] == 'const' and fv[1] is False:
+                            k.default = '<bool as std::default::Default>::default'
         else:
             res['problems'].append('no struct literal in visit_map')
         for k in res['keys'].values():
